@@ -15,7 +15,7 @@ NEVER_BLOCKS = [READFF_NB, READFE_NB, WRITEF, WRITEEF_NB, FILL, EMPTY, INCRF, ST
 VALUES = [0, 1, 2, 5, 1 << 59, (1 << 60) - 2, (1 << 60) - 1, 1 << 60, (1 << 60) + 1, 1 << 63, (1 << 64) - 1]
 CORPUS = os.path.join(core.VERIF, "corpus", "C03")
 LEVEL = "proof"
-EXPLANATION = ("18 Coq theorems (Properties_C03.v) over Syncvar/Model.v, a branch-by-branch model of src/syncvar.c on the raw 64-bit word, "
+EXPLANATION = ("17 Coq theorems (Properties_C03.v) over Syncvar/Model.v, a branch-by-branch model of src/syncvar.c on the raw 64-bit word, "
                "the hash record and the LIFO waiter lists: shape invariant for every reachable state of every script (waiter bit never lost, "
                "record present iff somebody waits, no blocked operation enabled, no fault), refinement of the abstract atomic cell "
                "(CellSpec.v) step by step, wake-up clauses (all readFF + one readFE on fill-like calls, one writeEF on empty-like calls), "
@@ -43,7 +43,6 @@ class Spec:
     def __init__(self, ntasks, nvars):
         self.nt = ntasks
         self.cells = [Cell() for _ in range(nvars)]
-        self.quirks = []        # observations outside the stated property (recorded, see run())
 
     def blocked(self, t):
         return any(t in c.pend for c in self.cells)
@@ -99,7 +98,6 @@ class Spec:
         if mine is None:
             return "%s is enabled (variable %s) but did not return" % (OPN[op], "full" if c.full else "empty")
         want = None
-        alt = None              # incrF only: the unreduced 64-bit sum, which the code hands to the readers it releases
         if op in (READFF, READFF_NB, READFE, READFE_NB):
             want = c.val if hd else None
             if op in (READFE, READFE_NB):
@@ -112,10 +110,8 @@ class Spec:
         elif op == EMPTY:
             c.full = False
         elif op == INCRF:
-            s = c.val + val
-            c.val = s & M60
-            want = s & M64
-            alt = want
+            c.val = (c.val + val) & M60
+            want = c.val            # incrF returns the new (60-bit) value
             if c.kinds("FE") or c.kinds("FF"):
                 c.full = True          # incrF marks the variable full when readers are waiting (documented in CellSpec.v)
         elif op == STATUS:
@@ -123,10 +119,8 @@ class Spec:
         if mine[0] != "OK":
             return "%s is enabled but returned %s" % (OPN[op], mine[0])
         if op == INCRF:
-            if mine[1] is None or (mine[1] & M60) != c.val or (c.val == want and mine[1] != want):
-                return "incrF returned %s, the new value is %x" % (mine[1], c.val)
-            if mine[1] != c.val:
-                self.quirks.append(("incrF-sum-exceeds-60-bits", "incrF returned %x but the variable now holds %x (sum >= 2^60 is neither rejected nor reduced)" % (mine[1], c.val)))
+            if mine[1] != want:
+                return "incrF returned %s, the new value is %x" % ("%x" % mine[1] if mine[1] is not None else None, c.val)
         elif mine[1] != want:
             return "%s delivered %s, expected %s" % (OPN[op], mine[1], want)
         # wake-ups: a transition to full releases every readFF waiter and exactly one readFE waiter (which empties the
@@ -137,7 +131,7 @@ class Spec:
                     r = ret.pop(w, None)
                     if r is None:
                         return "variable became full but readFF waiter %d was not released" % w
-                    if r != ("OK", c.val if c.pend[w][2] else None) and not (alt is not None and r == ("OK", alt if c.pend[w][2] else None)):
+                    if r != ("OK", c.val if c.pend[w][2] else None):
                         return "released readFF waiter %d got %s, value is %x" % (w, r, c.val)
                     del c.pend[w]
                 fes = [w for w in c.kinds("FE") if w in ret]
@@ -146,7 +140,7 @@ class Spec:
                         return "variable became full with readFE waiters %s: exactly one must be released, released %s" % (c.kinds("FE"), fes)
                     w = fes[0]
                     r = ret.pop(w)
-                    if r != ("OK", c.val if c.pend[w][2] else None) and not (alt is not None and r == ("OK", alt if c.pend[w][2] else None)):
+                    if r != ("OK", c.val if c.pend[w][2] else None):
                         return "released readFE waiter %d got %s, value is %x" % (w, r, c.val)
                     del c.pend[w]
                     c.full = False
@@ -296,6 +290,8 @@ def gen_script(rng, quick=True):
                 op = rng.below(11)
         if op == INCRF and rng.chance(1, 2):
             val = rng.choice([1, 1, 2, 3, M60, 1 << 60, M64])
+        if op == INCRF and rng.chance(1, 5):
+            val = (1 << 60) - c.val + rng.choice([-1, 0, 0, 1]) if c.val else val     # land the sum on 2^60-1, 2^60, 2^60+1
         if use_ctl:
             cmds.append("M %d %d %x %d" % (v, op, val, hd))
             t = nt
@@ -405,12 +401,10 @@ def run_model(drv, scripts):
     return res
 
 
-def oracle_script(script, impl_lines, status, quirks=None):
+def oracle_script(script, impl_lines, status):
     """the property on the implementation's observed behaviour.  -> None or (step index, reason)"""
     hdr = script[0].split()
     spec = Spec(int(hdr[1]), int(hdr[2]))
-    if quirks is not None:
-        spec.quirks = quirks
     for k, cmd in enumerate(script):
         if k >= len(impl_lines):
             return (k, "the run ended (%s) before `%s`" % (status, cmd))
@@ -448,7 +442,7 @@ def describe(cmd):
 def signature_of(reason):
     for key, sig in (("waiter bit", "waiter-bit-lost"), ("never returned", "lost-wakeup"), ("was not released", "lost-wakeup"),
                      ("never released", "lost-wakeup"), ("stay blocked", "lost-wakeup"),
-                     ("OVERFLOW", "overflow-not-rejected"), ("incrF", "incrF-value"), ("holds", "wrong-payload"), ("delivered", "wrong-payload"),
+                     ("OVERFLOW", "overflow-not-rejected"), ("incrF returned", "incrF-value"), ("holds", "wrong-payload"), ("delivered", "wrong-payload"),
                      ("exactly one", "wrong-release-count"), ("has to wait", "completed-without-waiting"), ("OPFAIL", "nb-variant")):
         if key in reason:
             return sig
@@ -499,7 +493,6 @@ def run(ctx):
     ophist = {n: 0 for n in OPN}
     outcome = {"returned": 0, "blocked": 0, "released_by_others": 0, "OPFAIL": 0, "OVERFLOW": 0, "busy": 0}
     samples = []
-    quirks = []
     stuck_n = 0
     for (cfg, n) in configs:
         r2 = rng.fork()
@@ -514,7 +507,7 @@ def run(ctx):
                 mismatches.append((cfg, nm, s, k if k is not None else len(il), il, ml, stt))
                 if stt != "ok":
                     stuck_n += 1
-            why = oracle_script(s, il, stt, quirks)
+            why = oracle_script(s, il, stt)
             if why:
                 oracle_fail.append((cfg, nm, s, il, why, stt))
             # statistics on what the run exercised (measured from the implementation's output)
@@ -562,14 +555,8 @@ def run(ctx):
         "(CAS spin, timeout, the `it got full!` re-check branches) are modelled, not exercised",
         "external (non-qthread) callers are not exercised: qthread_syncvar_nonblocker_func returns before the forked task has finished with its stack frame (DESIGN 5.4)"]
 
-    if quirks:
-        # incrF whose sum reaches 2^60: outside the stated property (documented in Properties_C03.v: incrF_result_partial /
-        # incrF_wrap_refuted).  Reported as a finding only if the lead lists the signature in known_findings.json.
-        ctx.cov["incrF_sum_exceeds_60_bits_observed"] = len(quirks)
-        if core.match_known("C03", quirks[0][0]) is not None:
-            ctx.violation(quirks[0][0], quirks[0][1], {"example": quirks[0][1]})
-        else:
-            ctx.notes.append("observed %d times (model agrees): %s" % (len(quirks), quirks[0][1]))
+    ctx.notes.append("history: incrF used to return / deliver the unreduced 64-bit sum once it reached 2^60 (found by this check, "
+                     "fixed in /repo 70f90aa); regression: corpus/C03/05_incrF_wrap.txt, Syncvar/Examples.v incrF_wrap_regression")
     broken = bool(mismatches) or not pr["ok"]
     if not broken and not oracle_fail:
         return
